@@ -51,6 +51,11 @@ META["C16"] = dict(
     note="Trusted: Lean kernel; the hand model (tied by correspondence incl. the exhaustive bitmap sweep each run); net.IP-based Add* builders not modelled.",
     technique="Lean 4 proof on a hand model (list induction + finite decide) + Go/Lean correspondence incl. exhaustive 2^16 sweep")
 
+META["C17"] = dict(
+    text="Kernel-checked on hand models of the (repaired) helpers: GPRS timer 2 and 3 — every representable duration decodes to itself and no duration in range decodes to more than requested (arithmetic proof over the unit ladder; finite parts by decide); session AMBR — any decimal numeral <= 65535 with unit Kbps..Pbps encodes to BE16 value + Table 9.11.4.14.1 code (proof over numeral strings); time zone — all 480 zone x DST texts decode to zone + adjustment when representable (decide over the whole grid), DST IE round trip; universal-time two-digit fields round-trip (decide over 0..99). Network name: spare-bit/length header for every n proved; unpack(pack name) = name is proved only for 1-character names and checked instances (partial) and evaluated on the real code for every length 0..70 each run. Defects F11, F12, F14 were repaired in /repo (fix: commits).",
+    note="Trusted: Lean kernel; hand models tied by correspondence (full timer ranges, whole zone grid, AMBR sweep each run); Go time package; spec decoder transcriptions.",
+    technique="Lean 4 proof on hand models (omega over the unit ladder, decide over finite grids; network-name round trip partial) + Go/Lean correspondence with full-range sweeps")
+
 NOT_APPLICABLE = {
  "C01": "check not built yet in this round (Lean model + correspondence planned, see DESIGN.md section 4); not claimed until it runs",
  "C02": "check not built yet in this round (Lean model + correspondence planned, see DESIGN.md section 4); not claimed until it runs",
